@@ -505,6 +505,49 @@ func vFresh(ctx context.Context, dir string, files map[string]string, cfg *confi
 	return out, nil
 }
 
+var vFreshCache sync.Map // key (config + files) -> map[string][]string
+
+// vFreshMemo: the reference only depends on the contents and the config (diagnostics are
+// canonicalised, the directory name does not occur in them), so it is computed once per final state.
+func vFreshMemo(ctx context.Context, dir string, w *vWorld) (map[string][]string, error) {
+	names := make([]string, 0, len(w.cur))
+	for n := range w.cur {
+		names = append(names, n)
+	}
+
+	sort.Strings(names)
+
+	var kb strings.Builder
+
+	kb.WriteString(w.cfg)
+
+	for _, n := range names {
+		fmt.Fprintf(&kb, "\x00%s\x01%s", n, w.cur[n])
+	}
+
+	if v, ok := vFreshCache.Load(kb.String()); ok {
+		return v.(map[string][]string), nil //nolint:forcetypeassert
+	}
+
+	var cfg *config.Config
+
+	if w.cfg != "<nil>" {
+		var err error
+		if cfg, err = vLoadConfig(w.cfg); err != nil {
+			return nil, err
+		}
+	}
+
+	fr, err := vFresh(ctx, dir, w.cur, cfg)
+	if err != nil {
+		return nil, err
+	}
+
+	vFreshCache.Store(kb.String(), fr)
+
+	return fr, nil
+}
+
 // ---------------------------------------------------------------------------------- events
 
 // vEvent is an editor event of a C15 history.  Files are names relative to the workspace root.
@@ -660,6 +703,16 @@ type vRun struct {
 	StableW   int                 `json:"stable_waits"`
 	LogTail   []string            `json:"log_tail,omitempty"`
 	Millis    int64               `json:"ms"`
+	// step mode: the state after every event (index i = after events[:i+1]); the last one equals Published/Fresh
+	Checkpoints []vCheckpoint `json:"checkpoints,omitempty"`
+}
+
+type vCheckpoint struct {
+	N         int                 `json:"n"`
+	Cfg       string              `json:"cfg"`
+	Final     map[string]string   `json:"final"`
+	Published map[string][]string `json:"published"`
+	Fresh     map[string][]string `json:"fresh"`
 }
 
 const vIdleTimeout = 300 * time.Second
@@ -727,6 +780,15 @@ func vRunHistory(job vRun, keepLog bool) (res vRun) {
 			if err := s.waitIdle(vIdleTimeout); err != nil {
 				return fail(fmt.Sprintf("idle after event %d", i), err)
 			}
+
+			if i < len(events)-1 {
+				fr, err := vFreshMemo(s.ctx, s.dir, w)
+				if err != nil {
+					return fail("fresh", err)
+				}
+
+				res.Checkpoints = append(res.Checkpoints, vCheckpoint{N: i + 1, Cfg: w.cfg, Final: w.clone().cur, Published: s.published(), Fresh: fr})
+			}
 		}
 	}
 
@@ -741,14 +803,7 @@ func vRunHistory(job vRun, keepLog bool) (res vRun) {
 	res.OtherReq = s.otherReq
 	res.StableW = s.stableWaits
 
-	var cfg *config.Config
-	if w.cfg != "<nil>" {
-		if cfg, err = vLoadConfig(w.cfg); err != nil {
-			return fail("config", err)
-		}
-	}
-
-	if res.Fresh, err = vFresh(s.ctx, s.dir, w.cur, cfg); err != nil {
+	if res.Fresh, err = vFreshMemo(s.ctx, s.dir, w); err != nil {
 		return fail("fresh", err)
 	}
 
